@@ -294,11 +294,15 @@ impl Request {
         match content_length {
             0 => (),
             PAYLOAD_LIMIT.. => return Err((|| Response::PayloadTooLarge())()),
-            _ => self.payload = Some(Request::read_payload(
+            _ => match Request::read_payload(
                 stream,
                 r.remaining(),
                 content_length,
-            ).await)
+            ).await {
+                Some(payload) => self.payload = Some(payload),
+                /* the connection ended before the announced body arrived */
+                None => return Ok(None)
+            }
         }
 
         Ok(Some(()))
@@ -310,23 +314,23 @@ impl Request {
         stream:        &mut (impl AsyncRead + Unpin),
         remaining_buf: &[u8],
         size:          usize,
-    ) -> CowSlice {
+    ) -> Option<CowSlice> {
         let remaining_buf_len = remaining_buf.len();
 
         if remaining_buf_len == 0 {
             #[cfg(feature="DEBUG")] println!("\n[read_payload] case: remaining_buf.is_empty() || remaining_buf[0] == 0\n");
 
             let mut bytes = vec![0; size].into_boxed_slice();
-            stream.read_exact(&mut bytes).await.unwrap();
-            CowSlice::Own(bytes)
+            stream.read_exact(&mut bytes).await.ok()?;
+            Some(CowSlice::Own(bytes))
 
         } else if size <= remaining_buf_len {
             #[cfg(feature="DEBUG")] println!("\n[read_payload] case: starts_at + size <= BUF_SIZE\n");
 
             #[allow(unused_unsafe/* I don't know why but rustc sometimes put warnings to this unsafe as unnecessary */)]
-            CowSlice::Ref(unsafe {
+            Some(CowSlice::Ref(unsafe {
                 Slice::new_unchecked(remaining_buf.as_ptr(), size)
-            })
+            }))
 
         } else {
             #[cfg(feature="DEBUG")] println!("\n[read_payload] case: else\n");
@@ -334,9 +338,9 @@ impl Request {
             let mut bytes = vec![0; size].into_boxed_slice();
             unsafe {// SAFETY: Here size > remaining_buf_len
                 bytes.get_unchecked_mut(..remaining_buf_len).copy_from_slice(remaining_buf);
-                stream.read_exact(bytes.get_unchecked_mut(remaining_buf_len..)).await.unwrap();
+                stream.read_exact(bytes.get_unchecked_mut(remaining_buf_len..)).await.ok()?;
             }
-            CowSlice::Own(bytes)
+            Some(CowSlice::Own(bytes))
         }
     }
 
